@@ -117,6 +117,12 @@ func dropEmptySections(ts []schema.Token) []schema.Token {
 				continue
 			}
 		}
+		// an empty output field list "()" right after the input list or the channel is recorded
+		// as "no output"
+		if i+1 < len(ts) && ts[i].Kind == '(' && ts[i+1].Kind == ')' && i > 0 && ts[i-1].Kind == ')' {
+			i++
+			continue
+		}
 		out = append(out, ts[i])
 	}
 	return out
